@@ -60,6 +60,12 @@ class C13IOError(OSError):
     pass
 
 
+# the text of the injected exception varies between runs: an error whose str() is EMPTY (a bare TimeoutError(),
+# AssertionError(), ...) must be propagated exactly like any other; so must messages that look like key values
+import itertools
+_MESSAGES = itertools.cycle(["injected failure", "", "0", "Rank 1 encountered error: nested", " "])
+
+
 class C13PendingIO:
     """PendingIOWork look-alike: sync_complete is one scheduling point; raises for a failing rank."""
     def __init__(self, world, fail):
@@ -69,7 +75,7 @@ class C13PendingIO:
         self.world.sched.point("io")
         if self.fail:
             self.world.event("io_fail")
-            raise C13IOError("injected failure while completing the pending I/O")
+            raise C13IOError(next(_MESSAGES))
         self.world.event("io_done")
 
 
@@ -82,7 +88,7 @@ class C13Storage:
         self.world.sched.point("meta")
         if self.fail:
             self.world.event("meta_fail", path=write_io.path)
-            raise C13IOError("injected failure of the metadata write")
+            raise C13IOError(next(_MESSAGES))
         self.world.event("meta_written", path=write_io.path, size=len(write_io.buf))
 
     def sync_close(self, event_loop):
